@@ -144,9 +144,20 @@ class Credits(Mode):
                        "currency value of %s and a price per game of %s",
                        self.credit_unit, min_currency_value, price_per_game)
 
-        self.credit_units_per_game = int(price_per_game / self.credit_unit)
+        self.credit_units_per_game = int(self._to_credit_units(price_per_game))
 
         self.info_log("Credit units per game: %s", self.credit_units_per_game)
+
+    def _to_credit_units(self, value):
+        """Convert a currency value to credit units.
+
+        Decimal prices are not exact in binary floating point (0.3 / 0.1 is 2.9999999999999996). A value which
+        is a whole number of credit units up to that error is returned as that int.
+        """
+        credit_units = value / self.credit_unit
+        if abs(credit_units - round(credit_units)) < 1e-6:
+            return int(round(credit_units))
+        return credit_units
 
     def _control_coin_inhibit(self):
         """Physically prevent or allow a player to insert coins depending on our state."""
@@ -172,7 +183,7 @@ class Credits(Mode):
 
         for index, pricing_tier in enumerate(self.credits_config['pricing_tiers']):
             price = pricing_tier['price'].evaluate([])
-            credit_units = price / self.credit_unit
+            credit_units = self._to_credit_units(price)
             credits_in_tier = pricing_tier['credits'].evaluate([])
             actual_credit_units = self.credit_units_per_game * credits_in_tier
             bonus = actual_credit_units - credit_units
@@ -428,7 +439,7 @@ class Credits(Mode):
 
     def _credit_switch_callback(self, value, audit_class, key_name):
         self.info_log("Credit switch hit. Credit Added. Value: %s. Type: %s keyName: %s", value, audit_class, key_name)
-        self._add_credit_units(credit_units=value / self.credit_unit)
+        self._add_credit_units(credit_units=self._to_credit_units(value))
         self._audit(value, audit_class, key_name)
         self._reset_timeouts()
 
